@@ -203,14 +203,16 @@ def check_samples(chk, r, tmp, quick):
 
     # parameter names as users write them: short, non-alphabetical, more than ten generated ones, and non-ASCII (Greek letters, \u0394m)
     names_sets = [["a", "b"], ["mass", "distance", "chirp"], [f"x_{i}" for i in range(12)], ["\u03b1", "mass", "\u0394m_21"]]
+    # a model whose parameters are called like fields of the containers (a temperature `beta`, a `log_q`), saved with DEFAULT arguments
     combos = [(K, n, w, flds, flat, nm) for K in (BaseSamples, Samples, SMCSamples) for n in NSS for w in ("f32", "f64")
               for flds in ((), ("log_likelihood",), ("log_likelihood", "log_prior", "log_q")) for flat in (False, True) for nm in range(4)]
     if quick:
         idx = r.permutation(len(combos))[:110]
         combos = [combos[i] for i in sorted(idx)]
     col_lines, col_keep = [], []
+    combos += [(K, n, "f64", ("log_likelihood",), None, -1) for K in (BaseSamples, Samples, SMCSamples) for n in NSS]
     for j, (K, n, w, flds, flat, nm) in enumerate(combos):
-        names = names_sets[nm]
+        names = names_sets[nm] if nm >= 0 else ["beta", "log_q", "tau"]
         d, N = len(names), 4
         x = r.normal(size=(N, d))
         kw = {f: r.normal(size=N) for f in flds}
@@ -226,11 +228,14 @@ def check_samples(chk, r, tmp, quick):
         p = os.path.join(tmp, f"s{j}.h5")
         try:
             with h5py.File(p, "w") as f:
-                s.save(f, flat=flat)
+                if flat is None:
+                    s.save(f)
+                else:
+                    s.save(f, flat=flat)
             listed = None
             with h5py.File(p, "r") as f:
                 t = K.load(f)
-                if not flat:
+                if flat is False:
                     listed = [k.split(".", 1)[1] for k in f["samples"].keys() if k.startswith("samples.")]
             os.remove(p)
         except Exception as e:   # noqa
@@ -547,14 +552,14 @@ def check_config(chk, tmp):
     for nsn in NSS:
         for dtype in (None, "float32", "float64"):
             for opts in ({}, {"sigma": 3.0, "mu": 0.5}):
-                for periodic in (None, ["p1"]):
+                for periodic, b2u, eps_ in ((None, True, 1e-5), (["p1"], True, 1e-5), (None, False, 0.0)):
                     t = smcrun.Target(2)
                     params = ["p1", "p0"]          # declared order is not the alphabetical one
                     a = Aspire(log_likelihood=t.log_likelihood, log_prior=t.log_prior, dims=2, parameters=params, periodic_parameters=periodic,
                                prior_bounds={"p1": [-10.0, 10.0], "p0": [-3.0, 7.0]}, flow_backend="verifstub", xp=ns.get_xp(nsn), dtype=dtype,
-                               bounded_transform="probit", eps=1e-5, **opts)
+                               bounded_transform="probit", eps=eps_, bounded_to_unbounded=b2u, **opts)     # (False and 0.0 are settings, not "unset")
                     p = os.path.join(tmp, f"cfg{j}.h5"); j += 1
-                    case = {"level": "config", "ns": nsn, "dtype": dtype, "flow_options": opts, "periodic": periodic}
+                    case = {"level": "config", "ns": nsn, "dtype": dtype, "flow_options": opts, "periodic": periodic, "bounded_to_unbounded": b2u, "eps": eps_}
                     chk.count("configs")
                     chk.case(case if j <= 2 else None, json.dumps(case))
                     try:
@@ -577,8 +582,9 @@ def check_config(chk, tmp):
                     pb = {k: [float(v) for v in np.asarray(vs).reshape(-1)] for k, vs in (b.prior_bounds or {}).items()}
                     if pb != {k: list(v) for k, v in a.prior_bounds.items()}:
                         bad.append(f"bounds {pb}")
-                    if b.bounded_transform != a.bounded_transform or b.eps != a.eps or b.dims != a.dims or b.flow_backend != a.flow_backend:
-                        bad.append("scalar settings")
+                    if b.bounded_transform != a.bounded_transform or b.eps != a.eps or b.dims != a.dims or b.flow_backend != a.flow_backend \
+                            or b.bounded_to_unbounded != a.bounded_to_unbounded:
+                        bad.append(f"scalar settings (bounded_to_unbounded {b.bounded_to_unbounded!r} / {a.bounded_to_unbounded!r}, eps {b.eps!r} / {a.eps!r})")
                     if bad:
                         chk.fail("an instance rebuilt from a saved configuration has the same settings", case, "; ".join(bad),
                                  {"level": "config", "clause": "equal", "what": sorted(x.split()[0] for x in bad)})
